@@ -5,6 +5,7 @@ import (
 	"go/constant"
 	"go/token"
 	"go/types"
+	"sort"
 	"strings"
 
 	"golang.org/x/tools/go/ssa"
@@ -245,7 +246,9 @@ func (c *Ctx) checkMatMul(oi *opInfo) {
 			for _, in := range b.Instrs {
 				if cl, ok := in.(*ssa.Call); ok {
 					if o := calleeObj(cl); o != nil && qualName(o) == pkgTensor+".Repeat" {
-						bc = f
+						if bc == nil || f.Pos() < bc.Pos() {
+							bc = f // the first in source order: the verdict must not depend on the iteration order of a map
+						}
 					}
 				}
 			}
@@ -414,6 +417,14 @@ func (c *Ctx) checkBatchedMatMul(oi *opInfo) {
 	key := "R16:matmul:batched-operands"
 	var f *ssa.Function
 	var mm *ssa.Call
+	// the helper whose product takes slices (the batched path); a helper that multiplies whole tensors (all matrices
+	// of a stack at once) is judged by the tables R44 / R16:matmul:shape-table. Candidates in source order, so that
+	// the verdict does not depend on the iteration order of a map.
+	type cand struct {
+		g  *ssa.Function
+		cl *ssa.Call
+	}
+	var cands []cand
 	for g := range c.reachFrom([]*ssa.Function{oi.methods["Apply"]}) {
 		if recvNamed(g) != oi.named || g == oi.methods["Apply"] {
 			continue
@@ -422,11 +433,37 @@ func (c *Ctx) checkBatchedMatMul(oi *opInfo) {
 			for _, in := range b.Instrs {
 				if cl, ok := in.(*ssa.Call); ok {
 					if o := calleeObj(cl); o != nil && qualName(o) == pkgTensor+".MatMul" {
-						f, mm = g, cl
+						cands = append(cands, cand{g, cl})
 					}
 				}
 			}
 		}
+	}
+	sort.Slice(cands, func(i, j int) bool { return cands[i].cl.Pos() < cands[j].cl.Pos() })
+	takesSlice := func(cl *ssa.Call) bool {
+		for _, a := range cl.Common().Args[:2] {
+			v := a
+			if ci, isCI := v.(*ssa.ChangeInterface); isCI {
+				v = ci.X
+			}
+			if ex, isEx := v.(*ssa.Extract); isEx {
+				if sc, isCall := ex.Tuple.(*ssa.Call); isCall {
+					if nm, _ := tensorMethod(sc); nm == "Slice" {
+						return true
+					}
+				}
+			}
+		}
+		return false
+	}
+	for _, cd := range cands {
+		if len(cd.cl.Common().Args) >= 2 && takesSlice(cd.cl) {
+			f, mm = cd.g, cd.cl
+			break
+		}
+	}
+	if mm == nil && len(cands) > 0 {
+		f, mm = cands[0].g, cands[0].cl
 	}
 	if mm == nil || len(f.Params) < 3 {
 		c.undecided("R16", key, c.pos(oi.methods["Apply"].Pos()), "no helper of MatMul multiplying matrix slices with tensor.MatMul found")
